@@ -608,7 +608,7 @@ func (fc *FnCtx) chanField(v ssa.Value) string {
 			}
 		}
 	case *ssa.Call:
-		return fc.anchorName(x.Common()) + "()"
+		return fc.anchorName(x.Common())
 	case *ssa.ChangeType:
 		return fc.chanField(x.X)
 	case *ssa.Phi:
@@ -797,6 +797,7 @@ func (fc *FnCtx) selectStmt(st *State, x *ssa.Select) {
 	recvOk := vc.fresh("sel_ok", SBool)
 	out.T = append(out.T, recvOk)
 	var knownReady []Term
+	recvVals := map[int]SV{}
 	for k, s := range x.States {
 		chosen := mkEq(idx, num(int64(k)))
 		sub := st.clone()
@@ -825,6 +826,7 @@ func (fc *FnCtx) selectStmt(st *State, x *ssa.Select) {
 		vc.assume(sub, mkImp(mkNot(okc), svEq(v, vc.zero(et))))
 		vc.assume(sub, mkEq(recvOk, okc))
 		out.T = append(out.T, v.T...)
+		recvVals[k] = v
 		// a closed channel is always ready to receive
 		knownReady = append(knownReady, mkAnd(mkNot(mkEq(c, "0")), closed))
 	}
@@ -840,6 +842,9 @@ func (fc *FnCtx) selectStmt(st *State, x *ssa.Select) {
 			chosen := mkEq(idx, num(int64(a.Case)))
 			env := fc.env(st, x.Block())
 			env.atInstr = x
+			if rv, ok := recvVals[a.Case]; ok {
+				env.vars["result"] = rv
+			}
 			fc.vc.safeEval(fmt.Sprintf("%s:%d at select", a.C.File, a.C.Line), func() {
 				switch a.What {
 				case "set":
